@@ -91,7 +91,7 @@ def numeric(group, inputs):
         M = int(str(M).rstrip('uU'), 0)
         if 'in_phase' in inputs and _int(inputs['in_phase']) is not None:
             tries.append(['phase', _int(inputs['in_phase']) & 0xffffffff, M])
-        if 'in_mu' in inputs and _int(inputs['in_mu']) is not None:
+        if 'in_mu' in inputs and _int(inputs['in_mu']) is not None and 0 <= _int(inputs['in_mu']) < M:   # only inputs inside the property's domain
             tries.append(['mu', _int(inputs['in_mu']), M])
         tries.append(['sweep', M])
     else:
@@ -140,7 +140,18 @@ def lwe_r(group, inputs, fn):
 
 
 def decomp_r(group, inputs, L, B):
-    return linear(group, inputs, 'decomp', L, B)
+    r = linear(group, inputs, 'decomp', L, B)
+    if r.get('confirmed'):
+        return r
+    # input search over the whole valid layout grid (cheap natively): a refactor can be right on this layout and wrong on another
+    for b in range(1, 31):
+        for l in range(1, 33):
+            if l * b <= 32 and (l, b) != (L, B) and l <= 16:
+                r2 = linear(group, inputs, 'decomp', l, b)
+                if r2.get('confirmed'):
+                    r2['detail'] += ' [layout l=%d, Bgbit=%d]' % (l, b)
+                    return r2
+    return r
 
 
 def full_library_sources():
@@ -171,6 +182,26 @@ def gates_r(group, inputs, gate=None):
     return runexe(exe, args, timeout=900)
 
 
+def params_r(group, inputs):
+    cpp, cfiles = full_library_sources()
+    out = os.path.join(core.BUILD, 'native')
+    os.makedirs(out, exist_ok=True)
+    objs = []
+    for cf in cfiles:
+        o = os.path.join(out, os.path.basename(cf) + '.o')
+        subprocess.run(['gcc', '-O2', '-c', '-I' + INC, '-o', o, cf], capture_output=True, text=True)
+        objs.append(o)
+    exe = build('params_replay', cpp, extra=['-O1', '-I' + os.path.join(LIB, 'fft_processors', 'nayuki')] + objs + ['-lpthread'])
+    return runexe(exe, [])
+
+
+def blind_r(group, inputs, fft):
+    src = 'lwe-bootstrapping-functions-fft.cpp' if fft else 'lwe-bootstrapping-functions.cpp'
+    extra = ['-DREPLAY_SRC="%s"' % os.path.join(LIB, src)] + (['-DREPLAY_FFT'] if fft else [])
+    exe = build('blind_replay', [], extra, exe_name='blind_replay_fft' if fft else 'blind_replay', stub_undefined=True)
+    return runexe(exe, [])
+
+
 def mult_r(group, inputs, fn, N=None):
     return linear(group, inputs, fn)
 
@@ -184,7 +215,7 @@ def pairing_r(group, inputs):
 
 
 ROUTINES = {'numeric': numeric, 'woks': woks, 'lwe': lwe_r, 'poly': lwe_r, 'extract': lwe_r, 'decomp': decomp_r, 'tlwe': lwe_r,
-            'mult': mult_r, 'keyswitch': keyswitch_r, 'pairing': pairing_r, 'gate': gates_r}
+            'mult': mult_r, 'keyswitch': keyswitch_r, 'pairing': pairing_r, 'gate': gates_r, 'blind': blind_r, 'params': params_r}
 
 
 def run(name, group, inputs):
